@@ -107,8 +107,9 @@ theorem relayed_request_is_the_request (p : Parsed) (x : Relayed) (hx : relayReq
 /-- The response the client reads from what the proxy writes (request method other than HEAD) is
 the origin's response: same status code, byte-identical body, and for every end-to-end field name
 the same values with multiplicity and in order. For an answer to HEAD the statement fails when the
-origin sent `Transfer-Encoding: chunked` — see `head_chunked_relay_leaves_stray_crlf`; what is
-missing for the full clause is the HEAD case without that field. -/
+origin sent `Transfer-Encoding: chunked` — see `head_chunked_relay_leaves_stray_crlf`; the HEAD case
+without that field is `relayed_head_response_is_the_response_partial`: together the two exclude
+exactly the class of the open finding (HEAD ∧ chunked). -/
 theorem relayed_response_is_the_response_partial (meth : Bytes) (closing : Bool) (p : Parsed) (x : Relayed)
     (hx : relayResponse meth closing p = some x) (hhead : (meth == headTok) = false)
     (hwf : WFRes meth x.msg) (rest : Bytes) (hrest : lengthDelimited x.msg = false → rest = []) :
@@ -133,6 +134,35 @@ theorem relayed_response_is_the_response_partial (meth : Bytes) (closing : Bool)
     show vals (resHdr x.msg) k = _
     rw [vals_resHdr x.msg k hex hcl hconn]
     exact relayResponse_e2e_vals meth closing p x hx k hk
+
+/-- Answer to HEAD, origin did not send `Transfer-Encoding: chunked`: the client reads the head the
+proxy writes as a complete bodiless response with the origin's status code and end-to-end field
+values, and what follows on the connection (the next response) is left untouched. -/
+theorem relayed_head_response_is_the_response_partial (closing : Bool) (p : Parsed) (x : Relayed)
+    (hx : relayResponse headTok closing p = some x) (hch : isChunked p.msg.te = false)
+    (hwf : WFResHead x.msg) (rest : Bytes) :
+    ∃ q, readResponse headTok (x.wire ++ rest) = .complete q rest ∧
+      q.msg.code = p.msg.code ∧ q.msg.body = some [] ∧
+      ∀ k, resRewritten.contains k = false → vals q.msg.hdr k = vals p.msg.hdr k := by
+  obtain ⟨h1, _, _, h4, _, h6⟩ := relayResponse_fields headTok closing p x hx
+  have hnb : x.noBody = true := by rw [← h4]; decide
+  have hch' : isChunked x.msg.te = false := by rw [h6]; exact hch
+  refine ⟨resParsedHead x.msg, ?_, by simp [resParsedHead, h1], by simp [resParsedHead, hwf.2.2.2.2.2.2.2.2.2.2.2.2.1], ?_⟩
+  · simp only [Relayed.wire, hnb, if_true, hch', Bool.false_eq_true, if_false, List.append_nil]
+    exact readResponse_head x.msg hwf rest
+  · intro k hk
+    have hreq : x.msg.isReq = false := hwf.1
+    have hk' := hk
+    simp only [resRewritten, List.contains_cons, List.contains_nil, Bool.or_false, Bool.or_eq_false_iff] at hk'
+    have hex : (exclOf x.msg).contains k = false := by
+      simp only [exclOf, hreq, Bool.false_eq_true, if_false, List.contains_cons, List.contains_nil, Bool.or_false,
+        Bool.or_eq_false_iff]
+      exact ⟨hk'.1, hk'.2.1⟩
+    have hcl : (clKey == k) = false := by rw [BEq.comm]; exact hk'.1
+    have hconn : (connKey == k) = false := by rw [BEq.comm]; exact hk'.2.2.2
+    show vals (resHdr x.msg) k = _
+    rw [vals_resHdr x.msg k hex hcl hconn]
+    exact relayResponse_e2e_vals headTok closing p x hx k hk
 
 /-! ### the open finding `c01:head-chunked-stray-crlf` -/
 
@@ -180,5 +210,13 @@ example : (match relayResponse (strBytes "GET") false exOriginRes with
     | some x => decide (WFRes (strBytes "GET") x.msg) && lengthDelimited x.msg | none => false) = true := by decide
 
 example : ∀ m ∈ [exClientReq.msg, exClientReq.msg], WFReq m := by decide
+
+def exHeadRes : Parsed :=
+  ⟨{ isReq := false, method := [], url := [], major := 1, minor := 1, code := 200, status := strBytes "200 OK",
+     host := [], te := [], cl := 1234, hdr := [(strBytes "Content-Length", strBytes "1234"), (strBytes "Etag", strBytes "x")],
+     body := some [], trailer := none }, false, none⟩
+
+example : (match relayResponse headTok false exHeadRes with
+    | some x => decide (WFResHead x.msg) | none => false) = true := by decide
 
 end Martian.Props.C01
